@@ -6,6 +6,7 @@ import MagpyVerif.Lemmas.KernelLiterals
 import MagpyVerif.Lemmas.Polyline
 import MagpyVerif.Lemmas.TrimeshSum
 import MagpyVerif.Lemmas.Level2Shape
+import MagpyVerif.Lemmas.TrimeshInside
 namespace MagpyVerif.C06
 open MagpyVerif MagpyVerif.Level2
 variable {G V : Type}
@@ -252,6 +253,53 @@ theorem trimesh_batch_rowwise {α M : Type} [Kern.Num α] [DecidableEq M] (f : K
     (inside : M → V3 α → Bool) (rows : List (Kern.MeshRow α)) :
     Kern.bhjmTrimesh f meshId inside rows = rows.map (Kern.bhjmTrimeshRow f meshId inside) :=
   Kern.bhjmTrimesh_rowwise f meshId inside rows
+
+/-- C06 / C02 (TriangularMesh with the REAL inside test): `BHJM_magnet_trimesh` with `mask_inside_trimesh` as ported in
+Model/TrimeshInside.lean (bounding-box pre-filter + ray casting; the meshes of two rows count as the same group iff
+their face arrays are equal) is row-wise for all four fields and every batch: each row gets the sum of its own triangle
+sheets, plus its own polarization iff ITS observer is inside ITS mesh according to that test — so B, J and M of one row
+use one and the same inside verdict, whatever other rows (same mesh or not) are evaluated in the same call.
+Instance of `trimesh_batch_rowwise`; holds over every carrier (`Float` as executed by the driver, `ℝ`). -/
+theorem trimesh_batch_rowwise_ray_test {α : Type} [Kern.Num α] [DecidableEq α] (f : Kern.Field)
+    (rows : List (Kern.MeshRow α)) :
+    Kern.bhjmTrimesh f (fun r => r.faces) Kern.maskInsideTrimesh rows =
+      rows.map (Kern.bhjmTrimeshRow f (fun r => r.faces) Kern.maskInsideTrimesh) :=
+  trimesh_batch_rowwise f (fun r => r.faces) Kern.maskInsideTrimesh rows
+
+/-- C12 / C02 (TriangularMesh, all four fields, whole batch): multiplying the mesh and the observer of every row by the
+same `l > 0` leaves the output of `BHJM_magnet_trimesh` (flat triangle-kernel call, cut into rows, grouping loop, ray-casting
+inside test) unchanged: the triangle sheets are unit-free (`triangleB_scale'`) and so is the inside verdict
+(`mask_inside_trimesh_scale_invariant`). -/
+theorem trimesh_batch_scale_invariant [DecidableEq (List (Kern.Tri ℝ))] (l : ℝ) (hl : 0 < l) (f : Kern.Field)
+    (rows : List (Kern.MeshRow ℝ)) :
+    Kern.bhjmTrimesh f (fun r => r.faces) Kern.maskInsideTrimesh (rows.map (Kern.rowScale l)) =
+      Kern.bhjmTrimesh f (fun r => r.faces) Kern.maskInsideTrimesh rows := by
+  rw [trimesh_batch_rowwise, trimesh_batch_rowwise, List.map_map]
+  apply List.map_congr_left
+  intro r _
+  exact Kern.bhjmTrimeshRow_scale l hl f r
+
+-- non-vacuity: a batch of two rows with different meshes (a tetrahedron, and the same one twice as large); the second
+-- observer lies outside its mesh's bounding box, so its J is zero whatever the first row is
+noncomputable def exRowA : Kern.MeshRow ℝ :=
+  { faces := [(⟨0, 0, 0⟩, ⟨0, 1, 0⟩, ⟨1, 0, 0⟩), (⟨0, 0, 0⟩, ⟨1, 0, 0⟩, ⟨0, 0, 1⟩), (⟨1, 0, 0⟩, ⟨0, 1, 0⟩, ⟨0, 0, 1⟩),
+      (⟨0, 0, 0⟩, ⟨0, 0, 1⟩, ⟨0, 1, 0⟩)], obs := ⟨1 / 4, 1 / 4, 1 / 4⟩, pol := ⟨0, 0, 1⟩ }
+noncomputable def exRowB : Kern.MeshRow ℝ :=
+  { faces := [(⟨0, 0, 0⟩, ⟨0, 2, 0⟩, ⟨2, 0, 0⟩), (⟨0, 0, 0⟩, ⟨2, 0, 0⟩, ⟨0, 0, 2⟩), (⟨2, 0, 0⟩, ⟨0, 2, 0⟩, ⟨0, 0, 2⟩),
+      (⟨0, 0, 0⟩, ⟨0, 0, 2⟩, ⟨0, 2, 0⟩)], obs := ⟨3, 1 / 4, 1 / 4⟩, pol := ⟨0, 0, 1⟩ }
+open Kern Classical in
+example : bhjmTrimesh .J (fun r => r.faces) maskInsideTrimesh [exRowA, exRowB] =
+    [bhjmTrimeshRow .J (fun r => r.faces) maskInsideTrimesh exRowA, zero3] := by
+  rw [trimesh_batch_rowwise_ray_test]
+  have : maskInsideTrimesh exRowB.faces exRowB.obs = false := by
+    simp [maskInsideTrimesh, exRowB, meshVerts, triVerts, insideBoxV, vertsMax, vertsMin, vMax, vMin, npMax_real,
+      npMin_real, pyMax_real, n]
+    norm_num
+  simp only [List.map_cons, List.map_nil, bhjmTrimeshRow, this, Bool.false_eq_true, if_false]
+open Kern Classical in
+example : bhjmTrimesh .B (fun r => r.faces) maskInsideTrimesh ([exRowA, exRowB].map (rowScale (1 / 1000))) =
+    bhjmTrimesh .B (fun r => r.faces) maskInsideTrimesh [exRowA, exRowB] :=
+  trimesh_batch_scale_invariant _ (by norm_num) _ _
 
 /-! ### kernels with batch-level control flow: Polyline -/
 
